@@ -452,3 +452,17 @@ func signature() string {
 	sigCache.Store(key, s)
 	return s
 }
+
+// Yield is a scheduling point without a lock: the caller parks like at a lock acquisition (of a lock nobody else
+// knows) and goes on when the driver picks it. The overlay build inserts it after every go statement of the
+// emulator, so that the order of a freshly started goroutine and its creator is the simulation's decision.
+//
+//go:norace
+func Yield() {
+	if cur.Load() == nil {
+		return
+	}
+	var m Mutex
+	m.Lock()
+	m.Unlock()
+}
